@@ -55,9 +55,13 @@ pub enum Tmpl {
     /// P = '(' Q ')' | 'x' ;  Q = '[' Q ']' | '<' P '>' | 'y'   (recursive() inside recursive(),
     /// recursive() inside declare/define, and the other way round)
     Nested,
+    /// recursion driven by the CONTEXT, not by the input: P re-enters itself through map_ctx with a
+    /// smaller context at the same input offset and only the innermost level consumes the single
+    /// token:  P(n) = if n == 0 { 'x' } else { P(n - 1) }   (used as P.with_ctx(depth) on "x")
+    CtxDepth,
 }
 
-pub const TEMPLATES: [Tmpl; 10] = [Tmpl::Paren, Tmpl::List, Tmpl::Chain, Tmpl::Mutual, Tmpl::PrattGroup, Tmpl::Brackets, Tmpl::PrattChain, Tmpl::PrattMix, Tmpl::Triple, Tmpl::Nested];
+pub const TEMPLATES: [Tmpl; 11] = [Tmpl::Paren, Tmpl::List, Tmpl::Chain, Tmpl::Mutual, Tmpl::PrattGroup, Tmpl::Brackets, Tmpl::PrattChain, Tmpl::PrattMix, Tmpl::Triple, Tmpl::Nested, Tmpl::CtxDepth];
 
 #[derive(Clone, Copy, Debug, PartialEq, Eq, Hash, Serialize, Deserialize)]
 pub enum Form {
@@ -224,9 +228,23 @@ fn body<'a>(t: Tmpl, pads: &[u8], me: BX<'a>, other: Option<BX<'a>>, second: boo
             just(b'x').to((0, 0)),
         ))
         .boxed(),
-        Tmpl::PrattChain | Tmpl::PrattMix | Tmpl::Triple | Tmpl::Nested => unreachable!(),
+        Tmpl::PrattChain | Tmpl::PrattMix | Tmpl::Triple | Tmpl::Nested | Tmpl::CtxDepth => unreachable!(),
     };
     pad(b, pads)
+}
+
+type ErC<'a> = extra::Full<Rich<'a, u8>, (), usize>;
+type BXC<'a> = Boxed<'a, 'a, In<'a>, O, ErC<'a>>;
+
+fn ctx_body<'a>(me: BXC<'a>) -> BXC<'a> {
+    use chumsky::input::MapExtra;
+    let at_zero = empty::<In<'a>, ErC<'a>>().try_map_with(|(), e: &mut MapExtra<'a, '_, In<'a>, ErC<'a>>| if *e.ctx() == 0 { Ok(()) } else { Err(Rich::custom(e.span(), "ctx is not 0")) });
+    let above_zero = empty::<In<'a>, ErC<'a>>().try_map_with(|(), e: &mut MapExtra<'a, '_, In<'a>, ErC<'a>>| if *e.ctx() > 0 { Ok(()) } else { Err(Rich::custom(e.span(), "ctx is 0")) });
+    let deeper = chumsky::primitive::map_ctx::<_, O, In<'a>, ErC<'a>, ErC<'a>, _>(|d: &usize| d.saturating_sub(1), me);
+    choice((at_zero.ignore_then(just(b'x').to((0u64, 0u64))), above_zero.ignore_then(deeper).map(|(d, m): O| cnt((d + 1, m))))).boxed()
+}
+fn never_c<'a>() -> BXC<'a> {
+    empty().try_map(|(), span| Err::<O, _>(Rich::custom(span, "U0 reached: unrolling too shallow (harness)"))).boxed()
 }
 
 fn lvl<'a>(p: BX<'a>, o: u8, c: u8, dm: u64) -> BX<'a> {
@@ -272,6 +290,11 @@ fn pratt_chain<'a>(pads: &[u8]) -> BX<'a> {
     .boxed()
 }
 
+thread_local! {
+    /// depth of the CtxDepth case being built on this thread (the top-level context)
+    static CTX_DEPTH: std::cell::Cell<usize> = const { std::cell::Cell::new(0) };
+}
+
 fn never<'a>() -> BX<'a> {
     empty().try_map(|(), span| Err::<O, _>(Rich::custom(span, "U0 reached: unrolling too shallow (harness)"))).boxed()
 }
@@ -292,6 +315,14 @@ fn unroll<'a>(t: Tmpl, pads: &[u8], k: usize) -> BX<'a> {
                 c = nc;
             }
             a
+        }
+        Tmpl::CtxDepth => {
+            let mut u = never_c();
+            for _ in 0..k {
+                u = ctx_body(u);
+            }
+            // the top-level context is the depth the input of the case stands for
+            u.with_ctx(CTX_DEPTH.with(|d| d.get())).boxed()
         }
         Tmpl::Nested => {
             let (mut p, mut q) = (never(), never());
@@ -336,6 +367,7 @@ pub fn openers(t: Tmpl) -> &'static [u8] {
         Tmpl::PrattChain | Tmpl::PrattMix => b"",
         Tmpl::Triple => b"([{<",
         Tmpl::Nested => b"([<",
+        Tmpl::CtxDepth => b"",
     }
 }
 
@@ -530,6 +562,7 @@ pub fn gen_input(t: Tmpl, depth: usize, shape_seed: u64) -> (Vec<u8>, O, usize) 
             v.extend(closers.iter().rev());
             (v, (n as u64, m), c0)
         }
+        Tmpl::CtxDepth => (vec![b'x'], (n as u64, 0), 1),
         Tmpl::PrattMix => {
             // n operators; every well-formed expression is consumed completely whatever the powers
             // are, and the folds only count operators
@@ -780,6 +813,23 @@ fn run_history<'a>(c: &LifeCase, input: &'a [u8]) -> History {
                 keep.push(H::Ind(cc));
             }
         }
+        (Tmpl::CtxDepth, form) => {
+            let depth = c.depth;
+            match form {
+                Form::Direct => {
+                    let r = recursive(move |p| ctx_body(p.boxed()));
+                    pool.push(H::Bx(r.with_ctx(depth).boxed()));
+                }
+                Form::Indirect => {
+                    let mut r = Recursive::declare();
+                    let bb = ctx_body(r.clone().boxed());
+                    if catch_unwind(AssertUnwindSafe(|| r.define(bb))).is_err() {
+                        refused = Some(hook::take_panic());
+                    }
+                    pool.push(H::Bx(r.with_ctx(depth).boxed()));
+                }
+            }
+        }
         (Tmpl::Nested, form) => {
             let s = crate::prng::mix64(c.shape_seed ^ 0x4e57);
             let inner_direct = s & 1 == 0;
@@ -890,8 +940,8 @@ fn run_unrolled(c: &LifeCase, input: &[u8], check: bool) -> (Outcome, u64) {
     (o, calls_get())
 }
 fn run_unrolled_inner(c: &LifeCase, input: &[u8], check: bool) -> Outcome {
-    let openers = openers(c.tmpl);
-    let k = input.iter().filter(|b| openers.contains(b)).count() + 2;
+    let k = nesting(c, input) + 2;
+    CTX_DEPTH.with(|d| d.set(c.depth));
     set_bp(c.shape_seed);
     let r = catch_unwind(AssertUnwindSafe(|| {
         let u = unroll(c.tmpl, &c.pads, k);
@@ -902,6 +952,16 @@ fn run_unrolled_inner(c: &LifeCase, input: &[u8], check: bool) -> Outcome {
     match r {
         Ok(o) => o,
         Err(_) => Outcome::Panicked { msg: hook::take_panic() },
+    }
+}
+
+/// How deep the recursion goes for this case: the opener tokens of the input, or (CtxDepth) the context.
+fn nesting(c: &LifeCase, input: &[u8]) -> usize {
+    if c.tmpl == Tmpl::CtxDepth {
+        c.depth
+    } else {
+        let o = openers(c.tmpl);
+        input.iter().filter(|b| o.contains(b)).count()
     }
 }
 
@@ -920,7 +980,7 @@ pub const DEFINE_ONCE_MSG: &str = "recursive parsers can only be defined once";
 pub fn exec_case(c: &LifeCase) -> CaseRun {
     let (input, expect) = make_input(c);
     let input = Arc::new(input);
-    let n_open = input.iter().filter(|b| openers(c.tmpl).contains(b)).count();
+    let n_open = nesting(c, &input);
     // system under simulation: on the resource-limited thread
     let c2 = c.clone();
     let inp2 = input.clone();
